@@ -58,7 +58,7 @@ class LeanAudit:
         mod = f"MdpaxV.Props.{self.prop}"
         src = LEAN / "MdpaxV" / "Props" / f"{self.prop}.lean"
         text = src.read_text()
-        self.obligations = re.findall(r"^theorem\s+([A-Za-z0-9_'.]+)", text, flags=re.M)
+        self.obligations = re.findall(r"^theorem\s+(\S+)", text, flags=re.M)
         cmd = ["lake", "build", mod]
         self.cmds.append("cd lean && " + " ".join(cmd))
         p = subprocess.run(cmd, cwd=LEAN, capture_output=True, text=True)
@@ -75,9 +75,9 @@ class LeanAudit:
                 p2 = subprocess.run(cmd2, cwd=LEAN, capture_output=True, text=True)
                 self.log += p2.stdout + p2.stderr
                 txt = (p2.stdout + p2.stderr).replace("\n  ", " ").replace("\n ", " ")
-            for m in re.finditer(r"'MdpaxV\.%s\.([A-Za-z0-9_'.]+)' depends on axioms:\s*\[([^\]]*)\]" % self.prop, txt):
+            for m in re.finditer(r"'MdpaxV\.%s\.(\S+)' depends on axioms:\s*\[([^\]]*)\]" % self.prop, txt):
                 axioms[m.group(1)] = {a.strip() for a in m.group(2).split(",") if a.strip()}
-            for m in re.finditer(r"'MdpaxV\.%s\.([A-Za-z0-9_'.]+)' does not depend on any axioms" % self.prop, txt):
+            for m in re.finditer(r"'MdpaxV\.%s\.(\S+)' does not depend on any axioms" % self.prop, txt):
                 axioms[m.group(1)] = set()
         self.axioms = {k: sorted(v) for k, v in axioms.items()}
         # forbidden constructs anywhere in the library (outside comments)
